@@ -327,7 +327,7 @@ Qed.
 
 
 (* ------------------------------------------------------ the node builder *)
-Notation WFr := (WF true src).
+Notation WFr := (WF src).
 Notation addSep := (C01_Parse.addSep src).
 
 (* where the children of the node being built end *)
@@ -355,12 +355,12 @@ Proof. intros [A [B [C D]]] H. repeat split; auto. lia. Qed.
 Lemma BF_empty p : BF (mkNb p []) p.
 Proof. repeat split; cbn; auto. Qed.
 
-Lemma WF_range relax t : WF relax src t -> t_from t <= t_to t /\ t_to t <= n.
+Lemma WF_range t : WF src t -> t_from t <= t_to t /\ t_to t <= n.
 Proof. intros H. destruct H. cbn. auto. Qed.
 
 Lemma push_ok b p t : BF b p -> WFr t -> t_from t = p -> BF (push t b) (t_to t).
 Proof.
-  intros [[A [B [C D]]] F] Wt Ht. pose proof (WF_range _ _ Wt) as [R1 R2].
+  intros [[A [B [C D]]] F] Wt Ht. pose proof (WF_range _ Wt) as [R1 R2].
   unfold BF, BI, push, cover. cbn [nb_ch nb_from rev].
   repeat split; auto.
   - eapply chain_app; eauto. congruence.
@@ -455,20 +455,16 @@ Proof.
 Qed.
 
 (* ---- the wrapper's epilogue ---- *)
-Lemma text_from_other k a f e x ch : N.eqb k KRedir = false -> text_from true (T k a f e x ch) = f.
-Proof. intros H. destruct ch as [|[k1 a1 f1 e1 x1 c1] r]; cbn; [reflexivity|]. now rewrite H. Qed.
-
-Lemma finish_ok k attr b begin ps : SI ps -> BF b (pos ps) ->
-  text_from true (finish src k attr b begin ps) = begin ->
-  WFr (finish src k attr b begin ps)
-  /\ t_from (finish src k attr b begin ps) = nb_from b
-  /\ t_to (finish src k attr b begin ps) = pos ps.
+Lemma finish_ok k attr b ps : SI ps -> BF b (pos ps) ->
+  WFr (finish src k attr b ps)
+  /\ t_from (finish src k attr b ps) = nb_from b
+  /\ t_to (finish src k attr b ps) = pos ps.
 Proof.
-  intros H [[A [B [C D]]] F] Tx. split; [|split; reflexivity].
+  intros H [[A [B [C D]]] F]. split; [|split; reflexivity].
   unfold finish in *. constructor.
   - lia.
   - apply H.
-  - now rewrite Tx.
+  - reflexivity.
   - intros _. now rewrite <- F.
   - apply Forall_rev. exact A.
 Qed.
@@ -478,14 +474,13 @@ Definition NodeOK (ps : pst) (t : tree) (ps' : pst) : Prop :=
   SI ps' /\ WFr t /\ t_from t = pos ps /\ t_to t = pos ps'.
 
 Lemma NodeOK_le ps t ps' : NodeOK ps t ps' -> pos ps <= pos ps'.
-Proof. intros [_ [W [F T]]]. pose proof (WF_range _ _ W). lia. Qed.
+Proof. intros [_ [W [F T]]]. pose proof (WF_range _ W). lia. Qed.
 
-Lemma finish_node k attr b ps0 ps : N.eqb k KRedir = false -> SI ps -> BF b (pos ps) ->
-  nb_from b = pos ps0 -> NodeOK ps0 (finish src k attr b (pos ps0) ps) ps.
+Lemma finish_node k attr b ps0 ps : SI ps -> BF b (pos ps) ->
+  nb_from b = pos ps0 -> NodeOK ps0 (finish src k attr b ps) ps.
 Proof.
-  intros Hk H HB Hf.
-  destruct (finish_ok k attr b (pos ps0) ps H HB) as [W [F T]].
-  { unfold finish. rewrite text_from_other; auto. }
+  intros H HB Hf.
+  destruct (finish_ok k attr b ps H HB) as [W [F T]].
   split; [auto|]. split; [auto|]. split; [congruence|auto].
 Qed.
 
@@ -530,7 +525,7 @@ Definition LoopSpecX {A} (l : nb -> pst -> option (nb * pst * A)) : Prop :=
   forall b ps b' ps' x, SI ps -> BF b (pos ps) -> l b ps = Some (b', ps', x) -> LoopOK b ps b' ps'.
 Definition left_ok (left : option tree) (ps : pst) : Prop :=
   match left with
-  | Some l => WFr l /\ t_to l = pos ps /\ t_kind l = KCompound
+  | Some l => WFr l /\ t_to l = pos ps
   | None => True
   end.
 Definition RedirSpec (p : option tree -> pst -> option (tree * pst)) : Prop :=
@@ -595,7 +590,7 @@ Ltac ext_sep L Q :=
 Ltac ext_expect L Q :=
   ext L (expectSep_ok _ _ _ _ _ _ (LoopOK_SI _ _ _ _ L) (LoopOK_BF _ _ _ _ L) Q).
 Ltac fin L :=
-  split; [apply finish_node; [reflexivity|apply L|apply L|apply L]|reflexivity].
+  split; [apply finish_node; [apply L|apply L|apply L]|reflexivity].
 
 Lemma chunk_ok : NodeSpec KChunk (chunk_body src c).
 Proof.
@@ -668,7 +663,7 @@ Proof.
   { dopt E as [cn ps1] Q1. destruct (gCompound c G NormalExpr _ _ _ H Q1) as [N K].
     destruct (isRedirSign (peek ps1)) eqn:RS.
     - dopt E as [t2 ps2] Q2. pose proof (NodeOK_le _ _ _ N) as Le. destruct N as [N1 [N2 [N3 N4]]].
-      destruct (gRedir c G (Some cn) ps1 t2 ps2 N1 RS (conj N2 (conj N4 K)) Q2) as [R1 [R2 [R3 R4]]].
+      destruct (gRedir c G (Some cn) ps1 t2 ps2 N1 RS (conj N2 N4) Q2) as [R1 [R2 [R3 R4]]].
       assert (NodeOK ps t2 ps2) as N' by (split; [auto|split; [auto|split; [congruence|auto]]]).
       ext L (push_node _ _ _ _ (LoopOK_BF _ _ _ _ L) N').
       dopt E as [b3 ps3] Q3. ext_spaces L Q3. ext_loop L (gFormLoop c G) E. exact L.
@@ -684,71 +679,33 @@ Qed.
 Lemma peek_sign_nonneg ps : isRedirSign (peek ps) = true -> (0 <= peek ps)%Z.
 Proof. unfold isRedirSign. intros H. apply orb_true_iff in H as [H|H]; apply Z.eqb_eq in H; lia. Qed.
 
-(* ---- Redir: the first child decides where the (relaxed) text starts ---- *)
-Definition FC (b : nb) (x : tree) : Prop := exists pre, nb_ch b = pre ++ [x].
-
-Lemma FC_push b x t : FC b x -> FC (push t b) x.
-Proof. intros [pre E]. exists (t :: pre). cbn. now rewrite E. Qed.
-Lemma FC_addSep b x ps : FC b x -> FC (addSep b ps) x.
-Proof. intros F. unfold C01_Parse.addSep. destruct (Nat.ltb _ _); auto. now apply FC_push. Qed.
-Lemma FC_spaces b x ps nl b' ps' : FC b x -> parseSpacesInner src b ps nl = Some (b', ps') -> FC b' x.
-Proof.
-  intros F E. unfold parseSpacesInner in E. destruct (spacesLoop _ _ _ _); [|discriminate].
-  inversion E; subst. now apply FC_addSep.
-Qed.
-Lemma FC_parseSep b x ps sep ok b' ps' : FC b x -> parseSep src b ps sep = (ok, b', ps') -> FC b' x.
-Proof.
-  intros F E. unfold parseSep in E. destruct (Z.eqb _ _); inversion E; subst; auto. now apply FC_addSep.
-Qed.
-
-Lemma finish_redir attr b begin ps x : SI ps -> BF b (pos ps) -> FC b x ->
-  (if N.eqb (t_kind x) KCompound then t_to x else nb_from b) = begin ->
-  WFr (finish src KRedir attr b begin ps).
-Proof.
-  intros H HB [pre E] Hx. apply finish_ok; auto.
-  unfold finish. rewrite E, rev_app_distr. cbn [rev app]. destruct x as [k1 a1 f1 e1 x1 c1].
-  cbn [text_from andb N.eqb KRedir Pos.eqb]. exact Hx.
-Qed.
-
 Lemma redir_ok : RedirSpec (redir_body src c).
 Proof.
   intros left ps t ps' H RS HL E. unfold redir_body in E.
   set (b0 := match left with Some l => mkNb (t_from l) [l] | None => mkNb (pos ps) [] end) in *.
   assert (BF b0 (pos ps)) as HB0.
-  { destruct left as [l|]; [|apply BF_empty]. destruct HL as [W [T K]].
-    pose proof (WF_range _ _ W) as [R1 R2].
+  { destruct left as [l|]; [|apply BF_empty]. destruct HL as [W Tl].
+    pose proof (WF_range _ W) as [R1 R2].
     unfold b0, BF, BI, cover; cbn [nb_ch nb_from rev app chain]. repeat split; auto; lia. }
   dopt E as ps1 Q1.
   destruct (redirSignLoop_ok _ _ _ H Q1) as [[S1 Le1] Lt1].
-  assert (pos ps < n) as Hlt by (apply peek_nonneg; [apply H|now apply peek_sign_nonneg]).
-  specialize (Lt1 RS Hlt).
   match type of E with (let '(_, _) := ?x in _) = _ => destruct x as [mode ps2] eqn:Q2 end.
   assert (SI ps2 /\ pos ps2 = pos ps1) as [S2 P2].
   { repeat (match type of Q2 with (if ?x then _ else _) = _ => destruct x end);
       inversion Q2; subst; split; auto; now apply error_SI. }
   destruct (addSep_loop b0 ps ps2 S2 (proj1 HB0) ltac:(lia)) as [A1 A2].
   assert (LoopOK b0 ps (addSep b0 ps2) ps2) as L by (apply LoopOK_intro; auto; lia).
-  (* the first child *)
-  assert (exists x, FC (addSep b0 ps2) x
-            /\ (if N.eqb (t_kind x) KCompound then t_to x else nb_from b0) = pos ps) as [x [F Hx]].
-  { destruct left as [l|].
-    - exists l. split; [apply FC_addSep; exists []; reflexivity|].
-      destruct HL as [W [T K]]. rewrite K. cbn. exact T.
-    - exists (mkSep src (pos ps) (pos ps2)). split; [|reflexivity].
-      unfold C01_Parse.addSep. cbn [b0 nb_ch nb_from].
-      destruct (Nat.ltb_spec (pos ps) (pos ps2)); [|lia]. exists []. reflexivity. }
-  dopt E as [b2 ps3] Q3. pose proof (FC_spaces _ _ _ _ _ _ F Q3) as F3. ext_spaces L Q3.
-  dlet E as [[isfd b3] ps4] Q4. pose proof (FC_parseSep _ _ _ _ _ _ _ F3 Q4) as F4. ext_sep L Q4.
+  dopt E as [b2 ps3] Q3. ext_spaces L Q3.
+  dlet E as [[isfd b3] ps4] Q4. ext_sep L Q4.
   dopt E as [t5 ps5] Q5. ext_node L (gCompound c G NormalExpr) Q5.
-  apply (FC_push _ _ t5) in F4.
   inversion E; subst. clear E.
-  match goal with |- context [finish _ _ _ _ _ ?p] => set (ps6 := p) end.
+  match goal with |- context [finish _ _ _ _ ?p] => set (ps6 := p) end.
   assert (LoopOK b0 ps (push t5 b3) ps6) as L6.
   { unfold ps6. destruct (t_ch t5); [now apply LoopOK_error|exact L]. }
   destruct L6 as [S6 [B6 [Fr6 Le6]]].
-  split; [exact S6|]. split; [|split; [reflexivity|]].
-  - eapply finish_redir; eauto. rewrite Fr6. exact Hx.
-  - cbn [finish t_from]. rewrite Fr6. unfold b0. destruct left; reflexivity.
+  destruct (finish_ok KRedir (mode + (if isfd then 8 else 0))%N (push t5 b3) ps6 S6 B6) as [W [F T]].
+  split; [exact S6|]. split; [exact W|]. split; [exact T|].
+  rewrite F, Fr6. unfold b0. destruct left; reflexivity.
 Qed.
 
 Lemma compound_ok ctx : NodeSpec KCompound (compound_body src c ctx).
@@ -888,8 +845,8 @@ Proof.
 Qed.
 
 Lemma finish_leaf ty ps ps' : SI ps' -> pos ps <= pos ps' ->
-  NodeOK ps (finish src KPrimary ty (mkNb (pos ps) []) (pos ps) ps') ps'
-  /\ t_kind (finish src KPrimary ty (mkNb (pos ps) []) (pos ps) ps') = KPrimary.
+  NodeOK ps (finish src KPrimary ty (mkNb (pos ps) []) ps') ps'
+  /\ t_kind (finish src KPrimary ty (mkNb (pos ps) []) ps') = KPrimary.
 Proof.
   intros H Le. split; [|reflexivity]. split; [exact H|]. split; [|split; reflexivity].
   unfold finish. cbn [nb_from nb_ch rev]. constructor; auto; try apply H. congruence.
@@ -1006,11 +963,10 @@ Proof.
   rewrite Forall_forall in H. specialize (H _ Hin). cbn in *. exact H.
 Qed.
 
-(* every parse result of the model is a lossless tree in the relaxed sense
-   (exact except for the text of a Redir node with a left operand), with all
-   error ranges inside the source *)
-Lemma parse_spec_relaxed fuel t es :
-  parse_fuel is_print src fuel = Some (t, es) -> Spec_C01_gen true src t es.
+(* every parse result of the model is a lossless tree (every node's text is
+   the slice of its range) with all error ranges inside the source *)
+Lemma parse_spec fuel t es :
+  parse_fuel is_print src fuel = Some (t, es) -> Spec_C01 src t es.
 Proof.
   unfold parse_fuel. intros E.
   destruct (cChunk _ _) as [[t0 ps]|] eqn:Q; [|discriminate]. inversion E; subst. clear E.
@@ -1018,21 +974,13 @@ Proof.
   assert (SI src (done src ps)) as SD.
   { unfold done. destruct (Nat.eqb _ _); auto. now apply error_SI. }
   split; [exact W|]. split; [exact F|]. split; [|split].
-  - rewrite (leaves_slice _ _ _ W), F. unfold slice. cbn [skipn]. now rewrite Nat.sub_0_r.
+  - rewrite (leaves_slice _ _ W), F. unfold slice. cbn [skipn]. now rewrite Nat.sub_0_r.
   - unfold done. rewrite Tt. change (C01_Parse.n src) with (length src).
     destruct (Nat.eqb_spec (pos ps) (length src)) as [Q1|Q1]; [now left|right].
     exists (mk_err src (pos ps, (if Nat.ltb (pos ps) (length src) then S (pos ps) else pos ps), errUnexpectedRune)).
     split; [|reflexivity]. unfold report. apply in_map. apply in_rev. rewrite rev_involutive.
     cbn. now left.
   - apply report_in_range. apply SD.
-Qed.
-
-(* ... and in the strict sense when no Redir node has a left operand *)
-Lemma parse_spec_strict fuel t es :
-  parse_fuel is_print src fuel = Some (t, es) -> no_redir_left t = true -> Spec_C01 src t es.
-Proof.
-  intros E Hn. destruct (parse_spec_relaxed _ _ _ E) as [W R].
-  split; [now apply WF_relax_strict|exact R].
 Qed.
 
 End Top.
@@ -1059,4 +1007,4 @@ Qed.
 
 Lemma parse_errors_in_range is_print src fuel t es :
   parse_fuel is_print src fuel = Some (t, es) -> errs_in_range src es.
-Proof. intros E. apply (parse_spec_relaxed is_print src fuel t es E). Qed.
+Proof. intros E. apply (parse_spec is_print src fuel t es E). Qed.
